@@ -935,6 +935,9 @@ def dup_pretask():
         G("dup-pretask-nested", N("LW", k=1), N("Leaf", i=1, pre=[0, 0]), N("TaskNoGen", refs={"a": 1})),
         G("dup-pretask-two-kinds", N("LW", k=1), N("LW", k=2), N("TaskNoGen", pre=[0, 1, 0, 1])),
         G("dup-pretask-then-shared", N("LW", k=1), N("Leaf", i=1, pre=[0, 0]), N("TaskNoGen", refs={"a": 1}, pre=[0])),
+        # two *distinct* pre-tasks that compare equal (same class, same values): both run
+        G("equal-pretasks-root", N("LW", k=1), N("LW", k=1), N("TaskNoGen", pre=[0, 1])),
+        G("equal-pretasks-nested", N("LW", k=1), N("LW", k=1), N("Leaf", i=1, pre=[0]), N("TaskNoGen", refs={"a": 2}, pre=[1])),
     ]
     for s in out:
         assert well_formed(s), s["label"]
